@@ -438,6 +438,21 @@ void runNl(Rng& r, bool thorough) {
                 for (int i = 0; i < 6; i++) d.uncache(h);
             }
             for (int i = 0; i < 30; i++) d.randomStep(maxTerm);
+            // while the count is still huge, make the handle table (and with it the counter arrays) grow
+            // past 512: a widened counter array must survive the resize without losing the count
+            if (huge && r.chance(2, 3)) {
+                STATS.hit("nl.bigcount.then.grow");
+                unsigned n = unsigned(d.D.sizes[0]);
+                long want = r.range(520, 700), made = 0, code = 1;
+                while (made < want) {
+                    Spec sp; sp.lvl = 1;
+                    long c = code++;
+                    for (unsigned i = 0; i < n; i++) { sp.kids.push_back(d.F->handleForValue(int(c % 53))); c /= 53; }
+                    bool same = true; for (node_handle kk : sp.kids) if (kk != sp.kids[0]) same = false;
+                    if (same) continue;
+                    d.mk(sp); ++made;
+                }
+            }
             // back down across the boundary
             long o = d.own.count(h) ? d.own[h] : 0;
             if (o > 20) { d.unlinkn(h, o - 10); for (int i = 0; i < 6; i++) d.unlink(h); }
